@@ -358,6 +358,9 @@ func (o *RtmpOrigin) Pump() bool {
 	return fed
 }
 
+// RawLen: bytes received from lal so far.
+func (o *RtmpOrigin) RawLen() int { return len(o.raw) }
+
 // Start sends the onStatus that completes lal's Start().
 func (o *RtmpOrigin) Start() {
 	code := "NetStream.Play.Start"
